@@ -1,6 +1,7 @@
 package main
 
 import (
+	"bufio"
 	"bytes"
 	"fmt"
 	"io"
@@ -307,6 +308,49 @@ func c01(c *ctx) {
 			}
 			out.Emit(map[string]interface{}{"k": "seq", "key": key, "hs": hs, "decs": decs}, true)
 			shapes.Add("seq/%d/%v", len(ls), masked)
+			n++
+		}
+	}
+	// ws.ReadHeader / ReadFrame through a bufio.Reader (small buffers, sources that deliver in pieces): several
+	// frames in a row, so that headers straddle refills of the buffer
+	for bi, bsz := range []int{16, 17, 32, 4096} {
+		for ci, chunk := range [][]int{{1}, {3}, {7, 2}, {13}, nil} {
+			key := fmt.Sprintf("bufseq/%d/%d", bsz, ci)
+			if !vh.Only(key) {
+				continue
+			}
+			var stream []byte
+			var hs []vh.H
+			var pls []int
+			for i := 0; i < 12; i++ {
+				l := []int{0, 5, 125, 126, 1, 40, 127, 3, 65536, 2, 200, 0}[(i+bi+ci)%12]
+				h := vh.H{Fin: i%3 != 0, Rsv: (i + bi) % 8, Op: []int{1, 2, 0, 9, 10, 8}[(i+ci)%6], Masked: (i+bi)%2 == 0, Mask: []int{0, 0, 0, 0}, N: uint64(l)}
+				if h.Masked {
+					h.Mask = []int{0x80 + i, 0x10 + ci, 0xfe, 0x01}
+				}
+				h.Len = vh.Len8(h.N)
+				hs = append(hs, h)
+				pls = append(pls, l)
+				stream = append(append(stream, vh.OwnEncode(h)...), bytes.Repeat([]byte{byte(0xe0 + i)}, l)...)
+			}
+			br := bufio.NewReaderSize(&vh.ChunkReader{Data: stream, Sizes: chunk}, bsz)
+			var decs []decRes
+			for i := range hs {
+				h, err := ws.ReadHeader(br)
+				d := decRes{Who: "ReadHeader", Chunk: "bufio", St: "ok", Err: vh.ErrClass(err), H: zeroH, Consumed: len(vh.OwnEncode(hs[i]))}
+				if err != nil {
+					d.St = "err"
+					decs = append(decs, d)
+					break
+				}
+				d.H = fromWS(h)
+				decs = append(decs, d)
+				if _, err := io.CopyN(io.Discard, br, int64(pls[i])); err != nil {
+					break
+				}
+			}
+			out.Emit(map[string]interface{}{"k": "seq", "key": key, "hs": hs, "decs": decs}, true)
+			shapes.Add("bufseq/%d/%d", bsz, ci)
 			n++
 		}
 	}
